@@ -5,7 +5,8 @@
 // (RoundTrip callers reading / closing response bodies, cancelling requests).
 // Same line protocol as rig_test.go: `<step> => <observations>`; shares its helpers.
 //
-// Injected as http2/zz_verif_c10t_test.go together with rig_test.go.
+// Injected as http2/zz_verif_c10t_test.go together with rig_test.go, whose TestVerifC10 /
+// TestVerifC11 alternate between the two rigs.
 package http2_test
 
 import (
@@ -22,17 +23,6 @@ import (
 	. "golang.org/x/net/http2"
 	vu "golang.org/x/net/internal/verifutil"
 )
-
-func TestVerifC10T(t *testing.T) { verifTFlowRun(t, "c10") }
-func TestVerifC11T(t *testing.T) { verifTFlowRun(t, "c11") }
-
-func verifTFlowRun(t *testing.T, mode string) {
-	cfg := vu.ConfigFromEnv()
-	vu.Run(cfg, func(r *vu.Rng, i int) []string { return vtGen(r, i, mode) },
-		func(ops []string, o *vu.Out) {
-			synctest.Test(t, func(t *testing.T) { vtExec(t, mode, ops, o) })
-		})
-}
 
 const (
 	vtPre = iota
